@@ -110,3 +110,13 @@ void termination_on_lp_rollback(struct lp_ctx *lp, simtime_t msg_time)
 	lp->termination_t = keep ? old_t : -1.0;
 	lps_to_end += !keep;
 }
+
+#ifdef ROOTSIM_VERIF
+/// Verification hook: exposes the thread-local accounting of the termination module to the external harness
+void verif_termination_state(uint64_t *lps_to_end_p, simtime_t *max_t_p, unsigned *thr_to_end_p)
+{
+	*lps_to_end_p = lps_to_end;
+	*max_t_p = max_t;
+	*thr_to_end_p = atomic_load_explicit(&thr_to_end, memory_order_relaxed);
+}
+#endif
